@@ -124,3 +124,20 @@ Theorem C06_any_cursor : forall (St : Type) (snext : St -> outcome (St * option 
   cm_run St snext mf calls (S (total_len ess)) srcs = merge_run mf calls ess.
 Proof. exact cm_run_lists. Qed.
 Print Assumptions C06_any_cursor.
+
+(* ================= the merger over FILES =================
+   FileSorter.merge_files: every source file is opened (Reader::new: the trailer), a fresh cursor is put on
+   it and the merger transcribed over cursors (move_on_next only) runs over those cursors.  If every file
+   presents its entries - it opens with their count and its loader shows them as a well-formed store, or as
+   the root without entries of a writer that finished without an insert - the merge of the files is exactly
+   the list-level merge of those entry lists (C06_merge_is_calls, C06_calls, C06_output apply to it): same
+   output, same calls of the merge function, same failure. *)
+From Grenad.model Require Import Trailer Reader.
+From Grenad.proofs Require Import FileSorter.
+
+Theorem C06_merging_files : forall decompress (mf : mergefn) calls fs ess,
+  Forall2 (fun f es => exists m, open_meta f = Done m /\ m_count m = len es /\
+                                 store_of (load_block decompress f (m_codec m)) (m_root m) (m_levels m) es) fs ess ->
+  merge_files decompress mf calls fs = merge_run mf calls ess.
+Proof. exact merge_files_lists. Qed.
+Print Assumptions C06_merging_files.
